@@ -42,9 +42,10 @@ ColSp == {img[x] : x \in Vecs(n)}
 SolSet(b) == {x \in Vecs(n) : img[x] = b}
 \* span of the first j-1 columns = images of the vectors supported on 1..j-1
 PrefixSpan(j) == {img[x] : x \in {y \in Vecs(n) : \A k \in j..n : y[k] = 0}}
-\* (checked on the states right after prep)
-PrepOK == (pc = "elim" /\ e.c = 1) => /\ rsp = RowSpace(A, m, n) /\ ColSp = ColSpace(A, m, n)
-                         /\ \A b \in Vecs(m) : SolSet(b) = Solutions(A, b, m, n)
+\* the state-bound objects are the GF2 definitions (checked right after prep; every right-hand side for the small shapes)
+PrepOK == (pc = "elim" /\ e.c = 1) =>
+  /\ rsp = RowSpace(A, m, n) /\ ColSp = ColSpace(A, m, n) /\ SolSet(Zero(m)) = Kernel(A, m, n)
+  /\ \A b \in (IF m * n <= 8 THEN Vecs(m) ELSE {img[[i \in 1..n |-> 1]]}) : SolSet(b) = Solutions(A, b, m, n)
 \* every elimination step is a row operation: row space preserved, transformation tracked
 StepInv == pc # "prep" => /\ RowSpace(e.mat, m, n) = rsp
                           /\ MatMul(e.T, A, m, m, n) = e.mat
